@@ -659,7 +659,7 @@ theorem content_length_rule (m : Msg) (cls : Bytes) (hh : reqHeader m sContentLe
     · have hc' : isDigit c = false := by simpa using hc
       simp [hc']
 
-def exOff : Flags := ⟨false, false, false, false, false⟩
+def exOff : Flags := ⟨false, false, false, false, false, true⟩
 def exPost : Msg := { meth := asc "POST", uri := some (asc "/x"), reqHdrs := [⟨sHost, asc "h", 1⟩, ⟨sContentLength, asc "3x", 3⟩] }
 def exBad : Msg := { code := 400, reqHdrs := [⟨sContentLength, asc "28", 3⟩] }
 
@@ -1010,6 +1010,43 @@ theorem unrepaired_iserr_sticks :
     let s := asc "GET /no HTTP/1.1\r\nHost: h\r\n\r\nGET /ok HTTP/1.1\r\nHost: h\r\n\r\n"
     ((serve exOff srv s).getLast?.map fun e => match e with | .write b => b.length | _ => 0) = some 435 ∧
     ((serve fixed srv s).getLast?.map fun e => match e with | .write b => b.drop (b.length - 3) | _ => []) = some (asc "h7\n") := by
+  decide +kernel
+
+/-! ### http_prepare: the bytes written are the rendered head -/
+
+/-- WRITER: for EVERY head (any length: shorter than, equal to or longer than the connection buffer) and whether or not
+    the buffer holds unread input, the `len` bytes http_prepare hands to the stream — formatted into the 8160-byte
+    connection buffer when `len < bufsz` and it is free, else into a heap copy of len+1 bytes — are exactly the
+    rendered head (the NUL snprintf appends never lands inside them) -/
+theorem written_is_rendered_head (unread : Bool) (head : Bytes) : prepared true unread head = head := by
+  have hb : bufsz ≠ 0 := by decide
+  have key : ∀ cap, head.length < cap → (snprintfBuf cap head).take head.length = head := by
+    intro cap hc
+    unfold snprintfBuf
+    rw [if_neg (by omega)]
+    rw [List.take_of_length_le (by omega : head.length ≤ cap - 1)]
+    rw [List.take_left']
+    rfl
+  unfold prepared
+  simp only [if_true]
+  by_cases h : (decide (head.length < bufsz) && !unread) = true
+  · rw [if_pos h]
+    simp only [Bool.and_eq_true, decide_eq_true_eq] at h
+    exact key bufsz h.1
+  · rw [if_neg h]
+    exact key (head.length + 1) (by omega)
+
+/-- so the model's `wire` (head ++ body) is what reaches the stream -/
+theorem wireOut_eq_wire (r : Res) : wireOut true r = wire r := by
+  unfold wireOut wire
+  rw [written_is_rendered_head]
+
+set_option maxRecDepth 200000 in
+/-- with `len <= bufsz` a head of exactly bufsz bytes loses its last byte to the NUL: "…CR LF CR NUL" is written -/
+theorem non_strict_test_truncates :
+    let head := List.replicate (bufsz - 4) (65 : UInt8) ++ [13, 10, 13, 10]
+    head.length = bufsz ∧ (prepared false false head).drop (bufsz - 4) = [13, 10, 13, 0] ∧
+    (prepared false true head).drop (bufsz - 4) = [13, 10, 13, 10] ∧ prepared true false head = head := by
   decide +kernel
 
 /-! ## (d) segmentation independence lifts from the head to the connection -/
